@@ -103,7 +103,13 @@ if REPO != "/repo":
 os.environ["VERIF_REPO"] = REPO
 race = "-race " if prop == "C09" else ""
 hbin = BUILD + ("/harness-race" if race else "/harness")
-rc2, hout = sh("go build %s%s-o %s ." % (modflag, race, hbin), cwd=V + "/harness", timeout=1800)
+cover = ""
+if os.environ.get("VERIF_COVERDIR"):
+    # measurement only (bin/coverage): which statements of dave/jennifer the correspondence runs reach
+    cover = "-cover -coverpkg=github.com/dave/jennifer/jen "
+    hbin += "-cover"
+    os.environ["GOCOVERDIR"] = os.environ["VERIF_COVERDIR"]
+rc2, hout = sh("go build %s%s%s-o %s ." % (modflag, race, cover, hbin), cwd=V + "/harness", timeout=1800)
 fcntl.flock(lock, fcntl.LOCK_UN)
 if rc2:
     # /repo no longer compiles (or its API lost something the harness relies on)
